@@ -54,24 +54,24 @@ type gvar struct {
 }
 
 type gfunc struct {
-	name   string
-	params []GT
-	ret    GT // "" for none
+	name     string
+	params   []GT
+	ret      GT // "" for none
 	variadic bool
 }
 
 // ProgGen generates one program.
 type ProgGen struct {
-	R      *rand.Rand
-	O      GenOpts
-	scopes [][]gvar
-	funcs  []gfunc
-	nvar   int
-	inLoop int
-	inFunc *gfunc
+	R        *rand.Rand
+	O        GenOpts
+	scopes   [][]gvar
+	funcs    []gfunc
+	nvar     int
+	inLoop   int
+	inFunc   *gfunc
 	funcBase int
-	sb     strings.Builder
-	Feat   map[string]int // feature histogram
+	sb       strings.Builder
+	Feat     map[string]int // feature histogram
 }
 
 // NewProgGen makes a generator.
@@ -776,7 +776,6 @@ func (g *ProgGen) forStmt(indent, depth int) {
 	g.w(indent, "end")
 }
 
-
 // Program generates a whole program and returns its source.
 func (g *ProgGen) Program() string {
 	g.sb.Reset()
@@ -784,7 +783,7 @@ func (g *ProgGen) Program() string {
 	g.funcs = nil
 	// declare function signatures first so that they can be called before definition
 	type fdef struct {
-		f    gfunc
+		f      gfunc
 		pnames []string
 	}
 	var defs []fdef
